@@ -479,6 +479,83 @@ async fn second_connection(ctx: &Ctx, rng: &mut Rng, epmd: &net::EpmdTable, h: u
     }
 }
 
+/// Receives that the caller gives up while the connection is idle (a `select!` arm that loses, a poll with its own
+/// short deadline): nothing had arrived, so nothing may be lost - what the peer sends afterwards is delivered.
+async fn abandoned_receives(ctx: &Ctx, rng: &mut Rng, epmd: &net::EpmdTable, h: usize) {
+    ctx.beat(&format!("abandoned-receives/{}", h));
+    let name = format!("ar{}", h);
+    let pl = net::listen_as(epmd, &name).await;
+    let go = std::sync::Arc::new(tokio::sync::Notify::new());
+    let go2 = go.clone();
+    let nmsg = 2 + rng.below(3);
+    let payloads: Vec<Val> = (0..nmsg).map(|i| Val::Tuple(vec![Val::atom("after_a_pause"), Val::int(h as i128 * 10 + i as i128)])).collect();
+    let to_send = payloads.clone();
+    let peer_task = tokio::spawn(async move {
+        let Ok(mut peer) = pl.accept("cookie", PEER_BASE_FLAGS, 0x4242_4246).await else { return };
+        if peer.handshake().await.is_err() {
+            return;
+        }
+        for p in &to_send {
+            // each message goes out only after the client has said that its abandoned receives are over
+            go2.notified().await;
+            let mut b = vec![112u8];
+            b.extend(ref_encode_canonical(&control_of_kind(2, 1).0).unwrap());
+            b.extend(ref_encode_canonical(p).unwrap());
+            let _ = peer.write_frame4(&b).await;
+        }
+        tokio::time::sleep(Duration::from_millis(300)).await;
+    });
+    let cfg = ConnectionConfig::new("rust@127.0.0.1", format!("{}@127.0.0.1", name), "cookie").with_epmd_host("127.0.0.1").with_timeout(Duration::from_millis(1500));
+    let mut conn = Connection::new(cfg);
+    if let Err(e) = conn.connect().await {
+        ctx.inconclusive(&format!("handshake with the scripted peer failed: {}", e));
+        peer_task.abort();
+        return;
+    }
+    let mut abandoned = 0usize;
+    let mut results: Vec<String> = Vec::new();
+    let mut ok = true;
+    for want in &payloads {
+        for _ in 0..1 + rng.below(3) {
+            // the peer is waiting for the go-ahead: the connection is idle, this receive cannot have read anything
+            let raw = rng.bool();
+            let gave_up = if raw { tokio::time::timeout(Duration::from_millis(30), conn.receive_raw()).await.is_err() } else { tokio::time::timeout(Duration::from_millis(30), conn.receive_message()).await.is_err() };
+            if gave_up {
+                abandoned += 1;
+            }
+        }
+        go.notify_one();
+        match tokio::time::timeout(Duration::from_secs(3), conn.receive_message()).await {
+            Ok(Ok((_, Some(p)))) if val_of(&p).same(want) => results.push("delivered".into()),
+            Ok(Ok((_, p))) => {
+                ok = false;
+                results.push(format!("another message: {:?}", p.map(|x| val_of(&x).show())));
+                break;
+            }
+            Ok(Err(e)) => {
+                ok = false;
+                results.push(format!("error: {}", e));
+                break;
+            }
+            Err(_) => {
+                ok = false;
+                results.push("nothing within 3 s".into());
+                break;
+            }
+        }
+    }
+    peer_task.abort();
+    ctx.eval(nmsg as u64);
+    ctx.class(&format!("abandoned-receives/{}messages/{}abandoned", nmsg, abandoned.min(6)));
+    if !ok {
+        ctx.viol(
+            "C06:lost-after-an-abandoned-idle-receive",
+            "a message sent after the caller had given up a receive on the idle connection was not returned",
+            json!({"history": h, "receives_given_up_while_idle": abandoned, "results": results}),
+        );
+    }
+}
+
 /// A fragmented message whose fragments arrive slowly: the gaps between them add up to several times the connection's
 /// timeout, bridged by ticks that each arrive well inside it (a live peer that is busy). The message must be delivered.
 /// Judged only when the peer's writes really stayed within the intended spacing.
@@ -741,7 +818,7 @@ async fn read_half_timeline(ctx: &Ctx, seed: u64, id: usize) {
 }
 
 pub fn run(ctx: &Ctx) {
-    ctx.rule("cases = peer histories after a real handshake under three negotiated flag sets (pass-through only; + DIST_HDR_ATOM_CACHE; + FRAGMENTS): every control-message kind, payloads from a few bytes to 70 kB, distribution headers from the atom-cache sender model, legal fragmentations into 1..5 fragments, long-lived connections that learn atoms in more than 256 cache slots over all segments, ticks, and junk frames (random bytes, truncated terms, wrong markers, non-tuples, bad payloads, fragment headers with inconsistent counts) at random positions, also between the fragments of an open sequence and claiming to belong to it (fragment id 0, = count, > count), TCP writes sliced randomly; the sequence of values returned by Connection::receive_message is compared with the sequence of valid messages sent; plus one connection object over two connections (the first ending in the middle of a fragmented message, the second peer re-using sequence ids and cache slots); plus fragmented messages whose fragments arrive further apart than the connection's timeout with ticks in between (judged when the peer's writes kept their spacing); plus slow-peer timelines for Connection::receive_message_from_read_half (ticks, silences longer than the caller's timeout between frames, frames arriving in pieces with short pauses): every call must return the next message; evaluations = messages and junk frames judged; distinct = distinct (flag set, wire form, control kind, junk kind) combinations");
+    ctx.rule("cases = peer histories after a real handshake under three negotiated flag sets (pass-through only; + DIST_HDR_ATOM_CACHE; + FRAGMENTS): every control-message kind, payloads from a few bytes to 70 kB, distribution headers from the atom-cache sender model, legal fragmentations into 1..5 fragments, long-lived connections that learn atoms in more than 256 cache slots over all segments, ticks, and junk frames (random bytes, truncated terms, wrong markers, non-tuples, bad payloads, fragment headers with inconsistent counts) at random positions, also between the fragments of an open sequence and claiming to belong to it (fragment id 0, = count, > count), TCP writes sliced randomly; the sequence of values returned by Connection::receive_message is compared with the sequence of valid messages sent; plus one connection object over two connections (the first ending in the middle of a fragmented message, the second peer re-using sequence ids and cache slots); plus receives the caller gives up while the connection is idle, followed by messages; plus fragmented messages whose fragments arrive further apart than the connection's timeout with ticks in between (judged when the peer's writes kept their spacing); plus slow-peer timelines for Connection::receive_message_from_read_half (ticks, silences longer than the caller's timeout between frames, frames arriving in pieces with short pauses): every call must return the next message; evaluations = messages and junk frames judged; distinct = distinct (flag set, wire form, control kind, junk kind) combinations");
     ctx.assume("a history ends with a pass-through sentinel message; a receive that fails with timeout/EOF ends the history");
     let rt = tokio::runtime::Builder::new_current_thread().enable_all().build().expect("runtime");
     let mut rng = Rng::derive(ctx.seed, 6, 1);
@@ -762,6 +839,7 @@ pub fn run(ctx: &Ctx) {
                 slow_fragments(ctx, &mut srng, epmd, h).await;
                 for k in 0..3 {
                     second_connection(ctx, &mut srng, epmd, h * 3 + k).await;
+                    abandoned_receives(ctx, &mut srng, epmd, h * 3 + k).await;
                 }
             }
         };
